@@ -125,6 +125,7 @@ func (ex *Exec) assertObl(cond *Term, label string) {
 		h.mu.Lock()
 		h.discharged++
 		h.mu.Unlock()
+		h.crossCheck(ex, ex.tt.Not(cond), label)
 	case "sat":
 		h.recordViolation(ex, label, "assertion can fail", ex.tt.Not(cond))
 	default:
@@ -153,6 +154,9 @@ func (ex *Exec) assertGroup(all0 []namedTerm, label string) {
 	ex.sol.what = "assert-group " + label
 	if all.IsTrue() || ex.sat(ex.tt.Not(all)) == "unsat" {
 		h := ex.H
+		if !all.IsTrue() {
+			h.crossCheck(ex, ex.tt.Not(all), label)
+		}
 		h.mu.Lock()
 		h.obligations += len(parts)
 		h.discharged += len(parts)
